@@ -7,6 +7,11 @@
 // boxed closures in the real structs; here they are opaque values whose calls are functions of their arguments
 // (ASSUMED[callbacks-are-functions]), and the per-directory iterator EntryIter is an opaque queue (ASSUMED[entry-iter]).
 //@ prelude base errors iter path_abs
+// ASSUMED[callbacks-are-functions]: the boxed callbacks of a traversal (pre_op, filter, sort comparator, the backend's directory lister) answer as functions of their arguments and keep no state that changes their answers
+// ASSUMED[entry-accessors]: VfsEntry::{path, is_dir, is_file, is_symlink} return the stored fields; clone() is an equal copy; follow() is the path/alt switch of unit entry_follow
+// ASSUMED[entry-iter]: EntryIter behaves as the queue proved in unit entry_iter (rest = out, arrange = the sorted sequences); the link between the two units is by name
+// ASSUMED[slice-iter-any]: v.iter().any(f) is true iff f answers true for some element of v
+// ASSUMED[vec-last-mut]: Vec::last_mut / push / pop / len as specified by vstd
 
 pub type Out = RvResult<VfsEntry>;
 
